@@ -9,6 +9,7 @@ by component (namespace portions count as "nothing there", DESIGN 3.4); found pa
 """
 import os
 import sys
+import zlib
 import itertools
 import importlib
 import importlib.machinery
@@ -119,7 +120,9 @@ class TreeSpec(Spec):
         nontriv = 0
         outcomes = {'found': 0, 'absent': 0}
         with harness.scratch_dir('c17') as base:
-            root = os.path.join(base, 'root')
+            # a fresh absolute path per tree: whatever the library remembers about one tree must not be able
+            # to leak into the next case (histories at one path are the business of the 'edits' spec)
+            root = os.path.join(base, 'root-%08x' % (zlib.crc32(repr(hist).encode()) & 0xffffffff))
             materialize(root, hist)
             importlib.invalidate_caches()
             for nm in lookup_names():
@@ -177,7 +180,93 @@ class TreeSpec(Spec):
         return {'atoms': uniq, 'n': n, 'nontrivial': nontriv, 'outcomes': outcomes, 'case': {'tree': hist}}
 
 
+EDIT_FILES = ['a.py', 'a/__init__.py', 'a/a.py', 'a/a/__init__.py', 'a/a/a.py', 'a/b_c.py']
+EDIT_NAMES = ['a', 'a.a', 'a.a.a', 'a.b_c', 'a.a.b_c', 'b_c']
+
+
+class EditSpec(Spec):
+    """Explicit-state exploration of a *changing* tree at one fixed path: state = which of six files exist
+    (the directories a/ and a/a/ always exist), event = create or delete one file.  After every event every
+    name is resolved again and compared with a fresh FileFinder: an answer may only depend on the tree as
+    it is now, never on what was resolved before (stale caches, remembered negatives)."""
+    prop = 'C17'
+    batch = 8
+    title = 'resolution after file-system edits at the same path (histories of create/delete events)'
+
+    def __init__(self, name, depth):
+        self.name = name
+        self.depth = depth
+        self.max_len = depth + 1
+        self.max_cost = 99
+        self.rule = ('every initial subset of %r (64 states) followed by every sequence of <= %d create/delete events; all of '
+                     '%r resolved before the first and after every event; non-trivial = histories with at least one event'
+                     % (EDIT_FILES, depth, EDIT_NAMES))
+
+    def init(self):
+        return None
+
+    def enabled(self, S, hist):
+        if S is None:
+            return [('init', m) for m in range(1 << len(EDIT_FILES))]
+        return [('toggle', i) for i in range(len(EDIT_FILES))]
+
+    def step(self, S, ev):
+        if ev[0] == 'init':
+            return ev[1]
+        return S ^ (1 << ev[1])
+
+    def canon(self, S):
+        return S
+
+    def final(self, S, hist):
+        return len(hist) >= 1
+
+    def cost(self, ev):
+        return 0
+
+    def run_case(self, hist):
+        from xdoctest.utils import util_import
+        atoms = []
+        n = 0
+        with harness.scratch_dir('c17e') as base:
+            # one path per history, fixed *within* the history: what the library remembers from an earlier step of
+            # the same history is what is being tested; anything remembered from another history would not
+            # reproduce in a fresh replay
+            root = os.path.join(base, 'root-%08x' % (zlib.crc32(repr(hist).encode()) & 0xffffffff))
+            os.makedirs(os.path.join(root, 'a', 'a'))
+            state = 0
+            for step_i, ev in enumerate(hist):
+                new = ev[1] if ev[0] == 'init' else state ^ (1 << ev[1])
+                for i, f in enumerate(EDIT_FILES):
+                    p = os.path.join(root, f)
+                    if (new >> i) & 1 and not (state >> i) & 1:
+                        with open(p, 'w') as fh:
+                            fh.write('X = 1\n')
+                    elif (state >> i) & 1 and not (new >> i) & 1:
+                        os.unlink(p)
+                state = new
+                importlib.invalidate_caches()
+                for nm in EDIT_NAMES:
+                    n += 1
+                    exp = oracle(root, nm)
+                    try:
+                        got = util_import.modname_to_modpath(nm, sys_path=[root])
+                    except Exception as ex:
+                        atoms.append({'sig': 'edits:raises:' + type(ex).__name__, 'msg': '%s: %r' % (nm, ex)})
+                        continue
+                    if (exp and os.path.realpath(exp)) != (got and os.path.realpath(got)):
+                        kind = 'finds-what-python-would-not' if got and not exp else ('misses-importable' if exp and not got else 'other-file')
+                        present = [f for i, f in enumerate(EDIT_FILES) if (state >> i) & 1]
+                        atoms.append({'sig': 'edits:%s:%s' % (kind, 'initial' if step_i == 0 else 'after-edit'),
+                                      'msg': 'step %d of %r, files now %r: modname_to_modpath(%r) = %r, the import system finds %r' % (
+                                          step_i, hist, present, nm, got and os.path.relpath(got, root), exp and os.path.relpath(exp, root))})
+        seen = set()
+        uniq = [a for a in atoms if not (a['sig'] in seen or seen.add(a['sig']))]
+        return {'atoms': uniq, 'n': n, 'nontrivial': int(len(hist) > 1), 'outcome': 'ok' if not uniq else 'bad',
+                'case': {'history': hist}}
+
+
 def specs(tier):
     if tier == 'thorough':
-        return [TreeSpec('trees-depth1', 1), TreeSpec('trees-depth2-wide', 2, wide=True)]
-    return [TreeSpec('trees-depth1', 1), TreeSpec('trees-depth2', 2)]
+        return [TreeSpec('trees-depth1', 1), TreeSpec('trees-depth2-wide', 2, wide=True), EditSpec('edits<=3', 3)]
+    return [TreeSpec('trees-depth1', 1), TreeSpec('trees-depth2', 2), EditSpec('edits<=2', 2)]
